@@ -402,6 +402,17 @@ def structWF (m : Module) (sd : StructDef) : Bool :=
 def moduleWF (m : Module) : Bool :=
   m.structs.all (structWF m)
 
+/-- fragment of `C01_ok_monotone_partial`: no array-typed fields -/
+def fieldNoArray (f : Field) : Bool :=
+  match f.kind with
+  | .phys _ _ (.array _ _) _ => false
+  | _ => true
+
+def moduleNoArrays (m : Module) : Bool :=
+  m.structs.all (fun sd => sd.fields.all fieldNoArray)
+
+def structNoArrays (sd : StructDef) : Bool := sd.fields.all fieldNoArray
+
 /-! ### static fuel check -/
 
 mutual
